@@ -192,8 +192,8 @@ def _constants():
         d = s.dimensionality.string
         if d != dim:
             raise ExtractError('quantities.constants.%s has SI dimensionality %s, expected %s' % (attr, d, dim))
-        if float(s.magnitude) != float(q.magnitude):
-            raise ExtractError('quantities.constants.%s is not stored in coherent SI units' % attr)
+        if float(s.magnitude) != float(q.definition.magnitude):     # the definition is given in coherent SI units
+            raise ExtractError('quantities.constants.%s is not defined in coherent SI units' % attr)
         out.append((attr, lean, dim, _exact(float(s.magnitude))))
     return out
 
